@@ -211,3 +211,29 @@ def choose(sym, n):
 
 def flag(b):
     return True if b else False
+
+
+def peek(x):
+    """One concrete model value of a symbolic int under the current path
+    condition WITHOUT constraining the path (unlike crosshair's realize(), which
+    adds `x == value` and makes the search enumerate all other values).  Used to
+    build a per-path concrete witness for code that cannot run on symbols
+    (pickle).  Identity on concrete values."""
+    if not SYMBOLIC:
+        return x
+    from crosshair.statespace import context_statespace, model_value_to_python
+    from crosshair.tracers import NoTracing
+    import z3
+    with NoTracing():       # type() of a proxy is only visible with tracing off
+        if type(x) is int:
+            return x
+        var = getattr(x, 'var', None)
+        if var is None:
+            return x
+        space = context_statespace()
+        if str(space.solver.check()) != 'sat':
+            raise RuntimeError('peek: path condition not satisfiable')
+        val = space.solver.model().eval(var, model_completion=True)
+        if z3.is_int_value(val):
+            return val.as_long()
+        return model_value_to_python(val)
